@@ -97,6 +97,16 @@ func (p *Pool) CalcJoinPoolNoSwapShares(tokensIn sdk.Coins) (numShares sdkmath.I
 		return sdkmath.ZeroInt(), sdk.NewCoins(), errors.New("no-swap joins require LP'ing with all assets in pool")
 	}
 
+	// every pool asset must be given exactly once: a repeated denom enters the share ratio once
+	// but is summed up in tokensJoined, and another pool asset is then not deposited at all
+	seenDenoms := make(map[string]bool, len(tokensIn))
+	for _, coin := range tokensIn {
+		if seenDenoms[coin.Denom] {
+			return sdkmath.ZeroInt(), sdk.NewCoins(), errors.New("no-swap joins require LP'ing with all assets in pool")
+		}
+		seenDenoms[coin.Denom] = true
+	}
+
 	// execute a no-swap join with as many tokens as possible given a perfect ratio:
 	// * numShares is how many shares are perfectly matched.
 	// * remainingTokensIn is how many coins we have left to join that have not already been used.
